@@ -37,6 +37,18 @@ CLAIMED = {
         text="Each generated program is run cut at every statement boundary: a binding made by a prefix must keep its value in the full run and a failing prefix must fail the program; 23 scoping templates (shadowing, leaks of parameters/item/self/module bindings, references to later bindings, module isolation) padded with unrelated statements are judged by the reference interpreter; every published reserved word is tried as a let, constraint, module-local and parameter binding.",
         note="Trusted: vf/refint.py scoping rules; the reserved list in reference/_index.md as the specification.",
         design="DESIGN.md section 4, C10"),
+    "C03": dict(
+        engine="probe",
+        technique="runtime monitor: round-trip oracle through independent decoders (CPython json, tomllib, libyaml events + own YAML 1.2 resolver) over hostile value trees; representability table for must-fail values",
+        text="Tens of thousands of value trees built from format-significant strings, numeric extremes, non-finite floats, quoting-hostile keys and nested empties are converted by the real converters (directly, through convert expressions and through `out` with the real CLI) and read back by decoders that share no code with serde; nesting, order, key sets, strings and exact numeric values must agree, and values the format cannot carry must be errors.",
+        note="Trusted: the independent decoders; my YAML 1.2 core-schema resolver (scalars on which 1.1 and 1.2 differ are counted). TOML arrays mixing types or nesting tables: error or exact round trip both accepted.",
+        design="DESIGN.md section 4, C03"),
+    "C17": dict(
+        engine="probe",
+        technique="runtime monitor: span oracle from my layout engine on single-fault programs (primary position inside the faulty statement, VIA inside the caller) + metamorphic line-shift check; eval, build and CLI",
+        text="Valid multi-line programs get exactly one fault (11 syntax and 12 evaluation kinds) at every statement position and 7 nesting hosts; since the layout engine placed every token, the exact span of the faulty and of the calling statement is known, and the first line/column of the diagnostic (VM, checker and CLI paths) must fall inside it; inserting k lines before must move it by exactly k lines, inserting after must not move it.",
+        note="Trusted: the layout engine's bookkeeping (cross-checked against ucg's own token positions in C11); 'primary position' = first line/column in the diagnostic.",
+        design="DESIGN.md section 4, C17"),
     "C11": dict(
         engine="probe",
         technique="runtime monitor: reference-model oracle (maximal-munch reference tokenizer) on token type/fragment/line/column/offset; exhaustive token pairs (+ triples in thorough); metamorphic layout invariance of tokens and parse trees",
